@@ -316,10 +316,10 @@ class Interp:
     def ev_AddrOf(self, e, st):
         outs = self.ev(e['e'], st)
         inner = e['e']
-        if e.get('mut') and inner.get('k') == 'Path' and inner.get('res') == 'local' and st.env.get(inner['bind'], ('unk',))[0] in ('vec', 'vecpush'):
+        if e.get('mut') and not self.places and inner.get('k') == 'Path' and inner.get('res') == 'local' and st.env.get(inner['bind'], ('unk',))[0] in ('vec', 'vecpush'):
             # `&mut v` of a local whose elements are tracked is handed to code without a model (the modelled uses - encode_into,
-            # mem::take / replace - are intercepted before their arguments are evaluated): it may change the vector, so the local
-            # no longer holds the tracked elements afterwards
+            # mem::take / replace - are intercepted before their arguments are evaluated; with `places` the reference names the
+            # place and writes through it are followed): it may change the vector, so the local no longer holds the tracked elements
             outs = [Out(o.kind, o.val, o.st.set(inner['bind'], ('unk', 'vector after &mut'))) if o.kind == 'val' else o for o in outs]
         return outs
 
@@ -1208,7 +1208,6 @@ class Interp:
                     s2 = self.vec_write(tgt, new, o.st, e).event(('call', cal, (old, o.val), e))
                     outs.append(Out('val', UNIT, s2))
                 return outs
-<<<<<<< HEAD
         if self.exact_seqs and cal.endswith('alloc::vec::Vec::<T, A>::pop') and not e['args']:
             # vec.pop() on a local vector all of whose elements are known: the last element leaves the vector (None when empty)
             recv = hirq.peel_refs(e['recv'])
@@ -1234,14 +1233,12 @@ class Interp:
                         handled = False
                 if handled:
                     return outs
-=======
         if self.places and hirq.strip_refs(e['recv'].get('ty') or '').startswith('alloc::vec::Vec<') \
                 and (e['recv'].get('adj_ty') or e['recv'].get('ty') or '').startswith('&mut '):
             # any method that borrows a tracked vector mutably (Vec's own, or a slice method reached through DerefMut)
             r = self.vec_mutator(cal, e, st)
             if r is not None:
                 return r
->>>>>>> main
         if cal.endswith('alloc::vec::Vec::<T, A>::insert') and len(e['args']) == 2:
             # vec.insert(k, x) on a vector whose elements are known, at a literal position
             recv = hirq.peel_refs(e['recv'])
@@ -1772,7 +1769,6 @@ def bin_term(op, a, b):
         return ('not', ('bin', 'Eq', a, b))
     return ('bin', op, a, b)
 
-<<<<<<< HEAD
 def ground(t):
     """t is a completely known value: a literal, or a vector / array / tuple / constructor of completely known values"""
     if t[0] == 'lit':
@@ -1783,8 +1779,6 @@ def ground(t):
         return all(ground(x) for x in t[2])
     return False
 
-def finite_seq(t, exact=False):
-=======
 def vec_truncate(c, n):
     """The content of vector term c after truncate(n)."""
     if c[0] == 'vec' and n[0] == 'lit' and isinstance(n[1], int) and not isinstance(n[1], bool):
@@ -1799,8 +1793,7 @@ def vec_truncate(c, n):
             x = x[1]
     return ('truncated', c, n)
 
-def finite_seq(t):
->>>>>>> main
+def finite_seq(t, exact=False):
     """The element terms of a sequence value whose length is known syntactically: an array expression `[a, b, c]` (iter / into_iter
     are transparent), also after zip / enumerate with literal counters; a vector all of whose elements are known values.  None for
     anything else."""
